@@ -73,6 +73,7 @@ type Exec struct {
 	regions  map[string][]knownRegion
 	allowPanic []string
 	funcsSeen map[*ssa.Function]bool
+	randN    int
 	rvalues  map[*Agg]Value // reflect.Value objects created by the model -> what they hold
 	inJSONMethod map[*ssa.Function]bool // custom (Un)MarshalJSON methods being run by the JSON model (no re-entry)
 	blocksSeen map[*ssa.BasicBlock]bool
